@@ -10,6 +10,7 @@ import Driver.C13
 import Driver.C16
 import Driver.C06
 import Driver.Batch
+import Driver.C10
 open Driver
 
 def machines : List (String × Machine × Machine) :=
@@ -25,7 +26,8 @@ def machines : List (String × Machine × Machine) :=
    ("C16", C16.machine, C16.judge),
    ("C06", C06.machine, C06.judge),
    ("C04", Batch.machine, Batch.judge04),
-   ("C05", Batch.machine, Batch.judge05)]
+   ("C05", Batch.machine, Batch.judge05),
+   ("C10", C10.machine, C10.judge)]
 
 def main (args : List String) : IO UInt32 := do
   match args with
